@@ -337,14 +337,15 @@ pub struct RestartResult {
 pub fn run(spec: &SeqSpec, fine_depth: usize, threads: usize) -> RestartResult {
     // enumerate states with the model only (the transitions themselves are validated by the
     // seq engine under the C01/C02 checks)
-    let mut states: Vec<Vec<Op>> = vec![vec![]];
+    // (histories start with `spec.prefix`, which is not counted in the depth)
+    let mut states: Vec<Vec<Op>> = vec![spec.prefix.clone()];
     let mut seen: BTreeSet<u64> = BTreeSet::new();
     let h0 = {
-        let (_, m, _) = seq::model_history(spec, &[]);
+        let (_, m, _) = seq::model_history(spec, &spec.prefix);
         hash(&m)
     };
     seen.insert(h0);
-    let mut frontier = vec![vec![]];
+    let mut frontier = vec![spec.prefix.clone()];
     for _ in 0..spec.depth {
         let mut next = Vec::new();
         for h in &frontier {
@@ -374,7 +375,7 @@ pub fn run(spec: &SeqSpec, fine_depth: usize, threads: usize) -> RestartResult {
                 let h = &states[si];
                 let (_, m, _) = seq::model_history(spec, h);
                 let ever_max = m.ever_ids.iter().next_back().copied();
-                let fine = h.len() <= fine_depth;
+                let fine = h.len() <= spec.prefix.len() + fine_depth && fine_depth > 0 || (spec.prefix.is_empty() && h.len() <= fine_depth);
                 let r = match spec.key_len {
                     4 => run_sweep::<ArrayKey<4>>(spec, h, lazy, fine, ever_max),
                     8 => run_sweep::<ArrayKey<8>>(spec, h, lazy, fine, ever_max),
@@ -389,7 +390,7 @@ pub fn run(spec: &SeqSpec, fine_depth: usize, threads: usize) -> RestartResult {
     results.sort_by_key(|r| (r.0, r.1));
     let mut stats = RestartStats {
         states: states.len(),
-        fine_states: states.iter().filter(|h| h.len() <= fine_depth).count(),
+        fine_states: states.iter().filter(|h| h.len() <= spec.prefix.len() + fine_depth).count(),
         ..Default::default()
     };
     let mut violations = Vec::new();
